@@ -3,6 +3,7 @@ import PfModel.Model.Sweep
 import PfModel.Lemmas.SweepProductEnum
 import PfModel.Model.SweepCount
 import PfModel.Lemmas.SweepFilteredPlain3
+import PfModel.Model.SweepCountExt
 /-! Driver for C17 (`sweep.ops`). Run: `lake env lean --run Driver/C17.lean < requests.jsonl`.
 
 Values are small integers, strings, `None` and tagged pairs (the results of the menu derivers); derivers and exclude
@@ -29,6 +30,15 @@ def putVal : Val → Json
   | .str s => jStr s
   | .none => Json.null
   | .node t a b => jObj [("t", jStr t), ("a", putVal a), ("b", putVal b)]
+
+/-- Python's `hash(v)` does not raise: the tag `list` stands for a Python `list` (`[a, b]`), every other tag for a tuple -/
+def hashable : Val → Bool
+  | .node t a b => t != "list" && hashable a && hashable b
+  | _ => true
+
+def isNoneVal : Val → Bool
+  | .none => true
+  | _ => false
 
 /-- `d.get(k)` -/
 def get (c : Dict Val) (k : Key) : Val := (lookup c k).getD .none
@@ -174,8 +184,10 @@ def handle (m : String) (a : Json) : R Json := do
           else Json.null
         | .error _ => Json.null
       else Json.null
-    match filtered s ks with
-    | .error e => return jObj [("err", jStr (errName e)), ("proj", proj), ("plain", plain)]
+    -- `filteredH` = `filtered` plus the `TypeError` of the derivers branch for unhashable values (`C17_filtered_hashable`)
+    match filteredH hashable s ks with
+    | .error .type => return jObj [("err", jStr "TypeError"), ("proj", proj), ("plain", plain)]
+    | .error (.base e) => return jObj [("err", jStr (errName e)), ("proj", proj), ("plain", plain)]
     | .ok p => return jObj [("ok", observe p), ("proj", proj), ("plain", plain)]
   | "count" =>
     let s ← getSweep (← fld a "s")
@@ -191,12 +203,32 @@ def handle (m : String) (a : Json) : R Json := do
     let fs : List PF.Pipe.Func := funcs.map fun (out, ps) =>
       { name := out, params := ps.map (fun p => (p, p)), outputs := [out], defaults := [], bound := [] }
     let deps := jOpt (jList (jPair jStr (jList jStr))) (countDeps fs o)
+    -- the reachability specification next to the algorithmic `rootArgs` / `funcDeps` (`C17_count_deps_reach`, `C17_roots_spec`)
+    let spec := jOpt (jList (jPair jStr (jList jStr))) (depsSpec fs o)
+    -- `set_cache_for_sweep`: optional `min` (min_executions) and `cache` (the flags before the call)
+    let minE ← optF asInt a "min"
+    let cache0 ← optF (asList (asPair asStr asBool)) a "cache"
     match generate s with
-    | .error e => return jObj [("deps", deps), ("counts", jObj [("err", jStr (errName e))])]
+    | .error e => return jObj [("deps", deps), ("spec", spec), ("counts", jObj [("err", jStr (errName e))]), ("ordered", jBool (ordered fs))]
     | .ok combos =>
       match countSweepPipe fs o combos with
       | none => return jObj [("err", jStr "KeyError")]
-      | some r => return jObj [("deps", deps), ("counts", putExc putCounts r)]
+      | some r =>
+        let pandas := match countPandasPipe isNoneVal fs o combos with
+          | none => Json.null
+          | some p => putExc (jList (jPair jStr (fun (x : Bool × Table Val) =>
+              jObj [("scalar", jBool x.1), ("table", jList (jPair (jList putVal) jNat) x.2)]))) p
+        let setc := match minE, cache0 with
+          | some m, some c0 =>
+            (match setCacheForSweep fs o combos m c0 with
+              | none => jObj [("err", jStr "KeyError")]
+              | some r => putExc (jList (jPair jStr jBool)) r)
+          | _, _ => Json.null
+        let sums := match r with
+          | .ok t => jList (jPair jStr jNat) (t.map fun c => (c.1, tsum c.2))
+          | .error _ => Json.null
+        return jObj [("deps", deps), ("spec", spec), ("counts", putExc putCounts r), ("pandas", pandas), ("setcache", setc),
+                     ("sums", sums), ("n", jNat combos.length), ("ordered", jBool (ordered fs))]
   | _ => .error s!"unknown entry {m}"
 
 def main : IO Unit := loop handle
